@@ -68,6 +68,41 @@ struct OpState {
     dir_w: bool,
     /// the harness received this operation's result
     delivered: bool,
+    /// number of wakers registered so far (every registration uses a new waker: the future "moved to another task")
+    wn: u64,
+}
+
+/// Waker with an identity: records its own invocation in the event stream.
+struct CountingWaker {
+    op: usize,
+    n: u64,
+}
+
+impl std::task::Wake for CountingWaker {
+    fn wake(self: std::sync::Arc<Self>) {
+        rec::push("h.hwoken", self.op as u64, self.n);
+    }
+
+    fn wake_by_ref(self: &std::sync::Arc<Self>) {
+        rec::push("h.hwoken", self.op as u64, self.n);
+    }
+}
+
+/// What a future does when its poll returned Pending: register the waker of the polling task. Every call
+/// registers a NEW waker, as if the future had been moved to another task in between.
+fn register_waker(d: &mut Proactor, ctx: &mut Ctx, oi: usize) {
+    let n = ctx.ops[oi].wn;
+    ctx.ops[oi].wn += 1;
+    let w = std::task::Waker::from(std::sync::Arc::new(CountingWaker { op: oi, n }));
+    match ctx.ops[oi].key.as_ref() {
+        Some(AnyKey::Read(k)) => d.update_waker(k, &w),
+        Some(AnyKey::Acc(k)) => d.update_waker(k, &w),
+        Some(AnyKey::Blk(k)) => d.update_waker(k, &w),
+        Some(AnyKey::Zc(k)) => d.update_waker(k, &w),
+        Some(AnyKey::Write(k)) => d.update_waker(k, &w),
+        None => return,
+    }
+    hev("h.hsetw", oi, n);
 }
 
 #[derive(Clone, Debug, PartialEq)]
@@ -268,6 +303,8 @@ fn hev(site: &'static str, opidx: usize, a: u64) {
 fn norm(evs: &[Ev], kinds: &HashMap<String, String>) -> Vec<(String, String, u64, u64)> {
     evs.iter()
         .filter(|e| e.ev != "bstart")
+        // waker registration / invocation is judged by the trace monitor only (the driver models do not carry wakers)
+        .filter(|e| !matches!(e.ev.as_str(), "hsetw" | "hwoken" | "hwchk"))
         .filter(|e| !(e.ev == "hbufdrop" && kinds.get(&e.op).map(|k| k == "multi").unwrap_or(false)))
         .map(|e| {
             let a = if e.ev == "result" { 0 } else { e.a };
@@ -385,6 +422,7 @@ fn run_case(case: &Value, rep: &mut Report, trace_out: &mut Vec<String>, settle_
                 caused: false,
                 dir_w: false,
                 delivered: false,
+                wn: 0,
             })
             .collect(),
         ptr2op: HashMap::new(),
@@ -837,6 +875,21 @@ fn run_case(case: &Value, rep: &mut Report, trace_out: &mut Vec<String>, settle_
                 hev("h.hend", 0, 0);
             }
             a => panic!("unknown action {a}"),
+        }
+        // a poll that returned Pending registers the polling task's waker (push -> Pending, pop -> Pending)
+        if matches!(act, "push" | "pop") && ctx.ops[oi].key.is_some() {
+            if let Some(d) = driver.as_mut() {
+                register_waker(d, &mut ctx, oi);
+            }
+        }
+        // end of the step: a result stored during it must have invoked the latest waker of every operation
+        // whose key the submitter still holds
+        if driver.is_some() {
+            for (i, o) in ctx.ops.iter().enumerate() {
+                if o.key.is_some() {
+                    hev("h.hwchk", i, 0);
+                }
+            }
         }
         let raw = rec::since(mark);
         cursor = mark + raw.len();
